@@ -283,11 +283,17 @@ logged for it, its part of the trace is the replay's events, the logged ops are 
 and what is pending in a box is known. -/
 structure Coh (O : Orders) (log : List Entry) (start : Nat → Int) (keys : List Nat) (m : Mgr) : Prop where
   hlog : m.w.log = log
-  box : ∀ k ∈ keys, m.getBox k = some (replay O log start m.ops k).1
+  box : ∀ k ∈ keys, m.getBox k = some (replay O log start m.ops k).1 ∨ (m.getBox k = none ∧ opsOf m.ops k = [])
   tr : ∀ k ∈ keys, projSeq log k m.trace = (replay O log start m.ops k).2
   wf : ∀ k ∈ keys, wfRun (cfgOf O log k) (seqLog log k) { state := start k } (opsOf m.ops k) = true
   pend : ∀ k ∈ keys, ∀ b, m.getBox k = some b → ∀ u ∈ b.pending, Known (seqLog log k) (mkOf log) u
   nobox : ∀ k, k ∉ keys → m.getBox k = none
+
+theorem Coh.box_some {O log start keys m} (h : Coh O log start keys m) (k : Nat) (hk : k ∈ keys) (b : Box)
+    (hb : m.getBox k = some b) : b = (replay O log start m.ops k).1 := by
+  rcases h.box k hk with h1 | ⟨h1, _⟩
+  · rw [hb] at h1; exact Option.some.inj h1
+  · rw [hb] at h1; cases h1
 
 /-- Events that do not concern any sequence. -/
 def Neutral (log : List Entry) (keys : List Nat) (evs : List Event) : Prop :=
@@ -433,8 +439,7 @@ theorem coh_seqOp {O log start keys m} (hu : UniqueIds log) (h : Coh O log start
     simp only [hb]
     have hcfg : applyCfgOf O (mkOf m.w.log) k = cfgOf O log k := by rw [h.hlog]; rfl
     rw [hcfg]
-    have hbr : b = (replay O log start m.ops k).1 := by
-      have := h.box k hk; rw [hb] at this; exact Option.some.inj this
+    have hbr : b = (replay O log start m.ops k).1 := h.box_some k hk b hb
     have hwb := hw b hb
     have hpend := h.pend k hk b hb
     have hin := sstep_evsIn (cfgOf O log k) hg b op (seqLog log k) hpend hwb
@@ -454,8 +459,10 @@ theorem coh_seqOp {O log start keys m} (hu : UniqueIds log) (h : Coh O log start
       rw [hgb, hops]
       by_cases hkk : k' = k
       · subst hkk
+        left
         rw [getBox_setBox_same m k' b _ hb, replay_snoc_same, ← hbr]
-      · rw [getBox_setBox_other m k k' _ hkk, replay_snoc_other _ _ _ _ _ _ _ (fun h => hkk h.symm)]
+      · rw [getBox_setBox_other m k k' _ hkk, replay_snoc_other _ _ _ _ _ _ _ (fun h => hkk h.symm),
+          opsOf_snoc, if_neg (fun h => hkk h.symm)]
         exact h.box k' hk'
     · intro k' hk'
       rw [htr, hops, projSeq_append, h.tr k' hk']
@@ -486,5 +493,65 @@ theorem coh_seqOp {O log start keys m} (hu : UniqueIds log) (h : Coh O log start
       have hkk : k' ≠ k := fun h => hk' (h ▸ hk)
       rw [getBox_setBox_other m k k' _ hkk]
       exact h.nobox k' hk'
+
+/-! ### A channel appears (first contact) -/
+
+theorem getBox_addChan_same (m : Mgr) (c : Nat) (pts : Int) (h : m.getBox (2 + c) = none) :
+    (m.addChan c pts).getBox (2 + c) = some { state := pts } := by
+  unfold Mgr.getBox Mgr.addChan at *
+  have h0 : ¬ (2 + c = 0) := by omega
+  have h1 : ¬ (2 + c = 1) := by omega
+  have h2 : 2 + c - 2 = c := by omega
+  simp only [h0, h1, if_false, h2] at h ⊢
+  have hn : m.chans.find? (·.id == c) = none := by
+    cases hf : m.chans.find? (·.id == c) with
+    | none => rfl
+    | some ch => simp [hf] at h
+  simp [List.find?_append, hn]
+
+theorem getBox_addChan_other (m : Mgr) (c : Nat) (pts : Int) (k : Nat) (hk : k ≠ 2 + c) :
+    (m.addChan c pts).getBox k = m.getBox k := by
+  unfold Mgr.getBox Mgr.addChan
+  by_cases h0 : k = 0
+  · simp [h0]
+  · by_cases h1 : k = 1
+    · simp [h1]
+    · simp only [h0, h1, if_false, List.find?_append]
+      cases hf : m.chans.find? (·.id == k - 2) with
+      | some ch => simp
+      | none =>
+        have : ¬ (c = k - 2) := by omega
+        simp [this]
+
+theorem coh_addChan {O log start keys m} (h : Coh O log start keys m) (c : Nat) (pts : Int)
+    (hk : 2 + c ∈ keys) (hb : m.getBox (2 + c) = none) (hs : start (2 + c) = pts) :
+    Coh O log start keys (m.addChan c pts) := by
+  have hops : opsOf m.ops (2 + c) = [] := by
+    rcases h.box _ hk with h1 | ⟨_, h2⟩
+    · rw [hb] at h1; cases h1
+    · exact h2
+  refine ⟨h.hlog, ?_, h.tr, h.wf, ?_, ?_⟩
+  · intro k hk'
+    by_cases hkk : k = 2 + c
+    · subst hkk
+      left
+      rw [getBox_addChan_same m c pts hb]
+      show _ = some (srun _ { state := start (2 + c) } (opsOf m.ops (2 + c))).1
+      rw [hops, hs]
+      rfl
+    · rw [getBox_addChan_other m c pts k hkk]
+      exact h.box k hk'
+  · intro k hk' b hbk
+    by_cases hkk : k = 2 + c
+    · subst hkk
+      rw [getBox_addChan_same m c pts hb] at hbk
+      rw [← Option.some.inj hbk]
+      intro u hu; simp at hu
+    · rw [getBox_addChan_other m c pts k hkk] at hbk
+      exact h.pend k hk' b hbk
+  · intro k hk'
+    have hkk : k ≠ 2 + c := fun h' => hk' (h' ▸ hk)
+    rw [getBox_addChan_other m c pts k hkk]
+    exact h.nobox k hk'
 
 end TdModel.C02Core
